@@ -435,3 +435,26 @@ func Harness_C05_NumberSpelling() {
 func HarnessT_C05_NumberSpellingWide() {
 	c05NumberSpelling(15, []int{-300, -100, -99, -10, -9, -8, -7, -6, -5, -1, 0, 1, 2, 9, 10, 11, 12, 14, 15, 16, 19, 20, 21, 22, 23, 99, 100, 307})
 }
+
+// Harness_C05_PrefixNames: a member name that is a proper prefix of another one (such as n / nonce) sorts first; names
+// are 1..2 and 2..4 symbolic printable ASCII characters, in either input order, with or without a third member whose
+// name differs in its first character.
+func Harness_C05_PrefixNames() {
+	short := verifrt.AnyBytes("short", 1+verifrt.Choose("short-len", 2))
+	ext := verifrt.AnyBytes("ext", 1+verifrt.Choose("ext-len", 2))
+	for _, c := range cat(short, ext) {
+		verifrt.Assume(c >= 0x20 && c < 0x7f && c != '"' && c != '\\')
+	}
+	long := cat(short, ext)
+	m1 := cat([]byte(`"`), short, []byte(`":1`))
+	m2 := cat([]byte(`"`), long, []byte(`":2`))
+	var input []byte
+	if verifrt.Choose("input-order", 2) == 0 {
+		input = cat([]byte(`{`), m1, []byte(`,`), m2, []byte(`}`))
+	} else {
+		input = cat([]byte(`{`), m2, []byte(`,`), m1, []byte(`}`))
+	}
+	out, err := Transform(input)
+	verifrt.Reach("transformed")
+	verifrt.Assert(err == nil && same(out, cat([]byte(`{`), m1, []byte(`,`), m2, []byte(`}`))), "a name that is a proper prefix of another name sorts before it")
+}
